@@ -112,7 +112,7 @@ PROPS["C05"] = {
     "rule": "rapid-generated (table, query) pairs: a table of 2-5 NULL-free columns over all four types with 0-40 rows from small value domains (ties, duplicates, empty tables), and 1-10 SELECTs over it written as SQL text with layout variations: "
             "select list * or 1-4 items (columns, optionally qualified by table name or alias; comparison/boolean expressions; literals; aliases with or without AS), WHERE = OR-of-ANDs of well-typed comparisons (column/literal in either order, column/column), "
             "ORDER BY 0-3 output columns by name, alias or qualified name with ASC/DESC/default, LIMIT and OFFSET in either order with values around the result size. Oracle: reference evaluator (harness/ref); without ORDER BY exact sequence, with ORDER BY a validity predicate "
-            "(length, sort-key tuples of the window, per-key-class sub-multiset) that accepts every order of tied rows; header names compared. Non-trivial: WHERE mixing AND and OR over >=3 comparisons, or >=2 sort keys with a tie on the first, or OFFSET/LIMIT cutting through the result, with a filter keeping neither nothing nor everything; distinct by (table, rows, query) JSON.",
+            "(length, sort-key tuples of the window, per-key-class sub-multiset) that accepts every order of tied rows; headings compared where the property determines them (column name or alias). Every query additionally goes through Session.ExecQuery - the console's route, which only prints - with standard output captured: the printed table must be the table of the evaluated result; pairs of queries that differ only inside a string literal (letter case, spacing) are generated for this. Non-trivial: WHERE mixing AND and OR over >=3 comparisons, or >=2 sort keys with a tie on the first, or OFFSET/LIMIT cutting through the result, with a filter keeping neither nothing nor everything; distinct by (table, rows, query) JSON.",
     "technique": "property-based differential testing (rapid) against an independent reference evaluator; tie-tolerant validity predicate for ORDER BY",
     "level_text": "Random search over tables and grammar-derived queries compared with a reference meaning. Search, not proof.",
     "level_note": "Trusted: harness/ref evaluator and model. Only well-typed queries over NULL-free columns (the property's domain); ORDER BY keys are output columns (the engine documents ErrSortFieldNotFound otherwise).",
@@ -122,7 +122,7 @@ PROPS["C06"] = {
     "kind": "harness", "test": "TestC06", "level": "exploration",
     "tiers": tiers(4000, 8, 70000, 16),
     "rule": "rapid-generated cases: 1-3 tables (INT key over {0..3} so keys repeat and rows stay unmatched, shared and table-unique column names, 0-12 rows, empty tables included) and 1-8 queries with a left-deep chain of 1-2 joins "
-            "(JOIN / INNER JOIN / LEFT JOIN / RIGHT JOIN, the same table twice under two aliases allowed), ON = 1-2 comparisons (=, <, !=, >=; AND or OR) between columns of tables that cannot be NULL-padded at that point, "
+            "(JOIN / INNER JOIN / LEFT JOIN / RIGHT JOIN, the same table twice under two aliases allowed), ON = 1-2 comparisons (=, <, !=, >=; AND or OR) between columns of tables that cannot be NULL-padded at that point (plus, in a second join, equality against a column of a NULL-padded table, which is never true for the padded rows), "
             "select list * or qualified/unique-unqualified columns, optional WHERE on a never-padded column, all as SQL text; 1 in 6 queries misaddresses a column on purpose (unqualified but present on both sides; name-qualified although aliased; unknown) and must be rejected. "
             "Oracle: reference nested loops + NULL padding compared as multisets of value tuples, headers compared. Non-trivial: two-join chain, or self-join, or a NULL-padded row together with a duplicated join key, or a must-be-rejected query; distinct by (tables, query) JSON.",
     "technique": "property-based differential testing (rapid) against a reference join evaluator, multiset comparison; negative cases for addressing rules",
@@ -134,7 +134,7 @@ PROPS["C07"] = {
     "kind": "harness", "test": "TestC07", "level": "exploration",
     "tiers": tiers(4000, 8, 70000, 16),
     "rule": "rapid-generated cases: table t0(g1 INT, g2 VARCHAR, n INT nullable, v INT, w BIGINT) with 0-60 rows whose grouping values collide when printed and concatenated (ints {1,2,3,12,23,123}, strings {'1','12','2','','<nil>','true',...}), "
-            "NULLs in n, AVG columns small or up to +-2^31 / +-2^40, optionally t1 for a join; 1-8 aggregate queries as SQL text: COUNT(*), COUNT(col), AVG(col) in any select-list position, 0-3 grouping columns referenced in GROUP BY (comma separated) by name, qualified name or alias, "
+            "NULLs in every grouping column including the table's first column (NULL next to the string '<nil>', strings containing commas, a second VARCHAR grouping column), AVG columns small or up to +-2^31 / +-2^40, optionally t1 for a join; 1-8 aggregate queries as SQL text: COUNT(*), COUNT(col), AVG(col) in any select-list position, 0-3 grouping columns referenced in GROUP BY (comma separated) by name, qualified name or alias, "
             "optional WHERE and JOIN. Oracle: reference grouping by value tuples, exact rational mean (either neighbour accepted at an exact half), compared as a multiset; metamorphic second run on a shadow database holding the same rows in a generated permutation. "
             "An AVG cell that deviates from the true rounded mean but equals the running mean re-rounded after every row in scan order is classified as the listed finding C07-avg-running-mean (counted, not raised). "
             "Non-trivial: >=2 grouping columns with two groups whose concatenated printed keys coincide, or an AVG group whose running-rounded mean differs from the true rounded mean, or a grouping column that is not first in the select list; distinct by (tables, query) JSON.",
@@ -146,7 +146,7 @@ PROPS["C07"] = {
 PROPS["C08"] = {
     "kind": "harness", "test": "TestC08", "level": "exploration",
     "tiers": tiers(1500, 8, 25000, 16),
-    "rule": "rapid-generated cases: a schema of 1-8 columns in any mix/order of the four types (first column a unique row number), then two phases of single-row operations: INSERT and UPDATE of boundary-biased values "
+    "rule": "rapid-generated cases: a schema of 1-8 columns in any mix/order of the four types (first column a unique row number), optionally 3-40 pre-filled and flushed rows (a table over several clean leaves), then two phases of single-row operations: INSERT and UPDATE of boundary-biased values "
             "(INT/BIGINT extremes, 2^53+1, empty strings, NUL/0xFF/invalid UTF-8 bytes, NULLs), rows built to encode to exactly 400 bytes (must be accepted) and 401 bytes (must be refused), wrong-kind values, INT beyond 32 bits; "
             "each statement as SQL text when the dialect can express it, else as direct statement values. After every statement SELECT * must equal the model bit-for-bit (refused statements: error and unchanged table); "
             "the comparison is repeated after flush + cache shrink to 6 pages + scan of another table (eviction, reload from disk), after a clean restart, and (phase 2, unflushed) after crash + recovery. "
@@ -160,7 +160,7 @@ PROPS["C14"] = {
     "kind": "harness", "test": "TestC14", "level": "exploration",
     "tiers": tiers(3000, 8, 50000, 16),
     "rule": "rapid-generated cases: a database state built by a valid history of 2-14 statements (generated flushes, so changes may be unflushed), then ONE failing statement: INSERT/UPDATE/DELETE on an unknown table, duplicate CREATE TABLE, "
-            "and INSERT with column-count mismatch / type mismatch / INT out of range / oversize row where the offending row sits at every index k of n rows, UPDATE with a bad value, UPDATE that becomes oversize only at the k-th matching row. "
+            "and INSERT with column-count mismatch / type mismatch / INT out of range / oversize row where the offending row sits at every index k of n rows, UPDATE with a bad value, UPDATE that becomes oversize only at the k-th matching row, CREATE TABLE whose k-th column the catalog cannot record, DELETE/UPDATE whose WHERE cannot be evaluated for a later row, the table addressed in another letter case (the last three are the implementation's choice to refuse: checked as implication only). "
             "Oracle: an error is returned and every table, row id and the catalog equal the model of the history, immediately, after crash + recovery of the files as they are, and after (optional tick +) clean restart; then a valid insert per table must work. "
             "A deviation that is exactly 'the row operations before the offending one stayed applied' is classified as the listed finding C14-multirow-partial-apply (counted, not raised); anything else is a violation. "
             "Non-trivial: multi-row statement with the offending row not first, or unflushed changes present before the failing statement; distinct by case JSON.",
@@ -225,7 +225,7 @@ PROPS["C11"] = {
     "rule": "rapid-generated histories of 10-120 operations through the real RelationService over 1-4 trees sharing one file: CreateTable, Insert batches of 1-40 rows with payloads of 1-390 bytes, Update, MarkDeleted, flushPages, reload (flush + empty cache), "
             "close/reopen and crash + WAL recovery; after EVERY operation a page-graph walker written from the definition checks the catalog trees and every user tree of the file: keys strictly ascending within and across leaves, every key inside the bounds given by its ancestors' separators, "
             "separators strictly ascending, all leaves at one depth, no page reachable twice over all trees, no node over capacity and every node encodes to 4096 bytes, left-to-right sibling chain = leaves in tree order = reverse of the right-to-left chain, every live key found by findCell from the root and no tombstoned one, live keys = what the history implies. "
-            "Plus a direct BTree.insert driver: 200 000 ascending keys into the in-memory store (4 levels; shard 0), 3 000 keys on a file store with flush + cold cache between batches (shard 1; thorough: 200 000 on file, shard 2), walker run at growing intervals. "
+            "Plus a fixed history of 1400 logged rows in one table with reopen and crash + recovery in between (start-up replay over a three-level tree; shard 3), and a direct BTree.insert driver: 200 000 ascending keys into the in-memory store (4 levels; shard 0), 3 000 keys on a file store with flush + cold cache between batches (shard 1; thorough: 200 000 on file, shard 2), walker run at growing intervals. "
             "Non-trivial: a tree of height >= 2 with >= 3 leaves and a reload between two splits of the same tree; distinct by history JSON.",
     "technique": "stateful property-based testing (rapid) with a structural invariant walker after every step; deterministic large-tree driver",
     "level_text": "Every reachable tree state of the generated histories is checked against the full shape invariant; deep trees (3-4 levels) are reached by the direct driver. Search, not proof.",
